@@ -1,17 +1,25 @@
 #!/usr/bin/env python3
 """Run every seeded breaking change against its property's quick check (run/seedtest.py, scratch worktree)
-and write seeded/RESULTS.md + seeded/results.json.  usage: run/seed_report.py [Cnn ...]"""
+and write seeded/RESULTS.md + seeded/results.json.  usage: run/seed_report.py [Cnn ...] | --merge
+Rows are kept per property in seeded/results.d/Cnn.json so that lanes for different properties can run side by side;
+--merge only rebuilds RESULTS.md / results.json from them."""
 import json, os, subprocess, sys, glob, re, time
 ROOT = os.path.dirname(os.path.dirname(os.path.abspath(__file__)))
-only = set(a.upper() for a in sys.argv[1:])
+merge_only = "--merge" in sys.argv[1:]
+only = set(a.upper() for a in sys.argv[1:] if not a.startswith("--"))
 rows = []
 prev = {}
 rj = os.path.join(ROOT, "seeded", "results.json")
+rd = os.path.join(ROOT, "seeded", "results.d")
+os.makedirs(rd, exist_ok=True)
 if os.path.exists(rj):
     prev = {r["id"]: r for r in json.load(open(rj))}
+for f in glob.glob(os.path.join(rd, "C*.json")):
+    for r in json.load(open(f)):
+        prev[r["id"]] = r
 for d in sorted(glob.glob(os.path.join(ROOT, "seeded", "C*-m*"))):
     sid = os.path.basename(d); prop = sid.split("-")[0]
-    if only and prop not in only:
+    if merge_only or (only and prop not in only):
         if sid in prev: rows.append(prev[sid])
         continue
     meta = json.load(open(os.path.join(d, "meta.json")))
@@ -22,7 +30,16 @@ for d in sorted(glob.glob(os.path.join(ROOT, "seeded", "C*-m*"))):
     sigs = sorted(set(re.sub(r".*seed\d+_", "", l.split("replay=")[1].split()[0]).replace(".json", "") for l in res.get("violation_lines", []) if "replay=" in l))
     rows.append({"id": sid, "property": prop, "title": meta.get("title", ""), "caught": res["caught"], "concrete_replay": res["concrete_replay"],
                  "replay_signatures": sigs[:6], "wall_s": round(time.time() - t0, 1)})
+    if not m:
+        rows[-1]["setup_error"] = p.stdout.strip()[-300:]
+        print(sid, "SETUP-ERROR", p.stdout.strip()[-300:].replace("\n", " | "), flush=True)
+        continue
     print(sid, "caught" if res["caught"] else "MISSED", "concrete" if res["concrete_replay"] else "no-input", flush=True)
+for prop in sorted(set(r["property"] for r in rows)):
+    if merge_only or (only and prop not in only):
+        continue
+    json.dump([r for r in rows if r["property"] == prop], open(os.path.join(rd, prop + ".json"), "w"), indent=1)
+rows.sort(key=lambda r: r["id"])
 json.dump(rows, open(rj, "w"), indent=1)
 with open(os.path.join(ROOT, "seeded", "RESULTS.md"), "w") as f:
     f.write("# Seeded breaking changes vs. checks\n\nEach change was produced by an independent engineer who saw only the property text, confirmed by\n`run/confirm_seed.py` (builds; repository suite passes; demonstration fails with / passes without the change) and run\nthrough `run/seedtest.py <Cnn> seeded/<id> quick` (scratch worktree of /repo HEAD + patch, `VERIF_REPO`).\n\n| seed | change | caught | concrete replay | replay signatures |\n|---|---|---|---|---|\n")
